@@ -313,7 +313,7 @@ class RunCtx:
     def _rec(self, kind: str, node: str, payload: Any = None) -> int:
         self.seq += 1
         self.log.append((self.seq, kind, node, payload))
-        if self.closed:
+        if self.closed and kind in ("start", "ev", "save"):
             self.late.append((kind, node))
         return self.seq
 
